@@ -25,7 +25,7 @@ RULE = (
 BUDGET = {'quick': (60000, 55), 'thorough': (4_000_000, 600)}
 COMPONENTS = common.COMPONENTS
 ASSUMPTIONS = ['FIFO ready queue', 'lifecycle hooks do not raise (C03 covers hooks that do)']
-EXPECTED_COUNTERS = ['probe:late_failing_callback_after_terminal', 'probe:fail_on_terminated', 'probe:kill_on_terminated',
+EXPECTED_COUNTERS = ['kind:workchain', 'probe:late_failing_callback_after_terminal', 'probe:fail_on_terminated', 'probe:kill_on_terminated',
                      'probe:resume_on_terminated', 'probe:step_on_terminated', 'probe:program_callback_fails_late']
 KINDS = ['pause', 'play', 'kill', 'resume', 'fail', 'callback']
 PROGRAM_CFG = {
@@ -72,15 +72,30 @@ def systematic(tier):
 
 
 def random_case(rng, tier):
-    program = programs.gen_process_program(rng, PROGRAM_CFG)
+    kinds = KINDS
+    if rng.random() < 0.2:
+        program = common.gen_workchain_with_awaitables(rng)
+        kinds = KINDS + ['complete', 'complete']
+    else:
+        program = programs.gen_process_program(rng, PROGRAM_CFG)
     ticks, notify, _ = common.dry_run(program)
     max_actions = 4 if tier == 'quick' else 6
-    schedule = common.gen_schedule(rng, KINDS, max_actions, ticks, notify, late=0.3)
+    schedule = common.gen_schedule(rng, kinds, max_actions, ticks, notify, late=0.3)
+    for action in schedule:
+        if action['act'] == 'complete':
+            action.update(fut=rng.randrange(max(program.get('n_futures', 1), 1)), how=rng.choice(['value', 'value', 'exc']), v='x')
     return {'program': program, 'schedule': schedule, 'opts': {}}
 
 
 def shrink(case):
-    return common.shrink_control(case)
+    if case['program'].get('kind') == 'workchain':
+        import copy
+        for i in range(len(case['schedule'])):
+            candidate = copy.deepcopy(case)
+            del candidate['schedule'][i]
+            yield candidate
+        return
+    yield from common.shrink_control(case)
 
 
 class Monitor:
@@ -206,6 +221,8 @@ def run(case):
             engine.run_to_quiescence()
             monitor.check('step')
             del step_task
+        if case['program'].get('kind') == 'workchain':
+            result.counters['kind:workchain'] += 1
         if any(e[0] == 'callback' and isinstance(e[2], int) and e[4] in TERMINAL for e in engine.world.events):
             result.counters['probe:program_callback_fails_late'] += 1
         common.finish_result(engine, result)
